@@ -161,11 +161,13 @@ type c16Handle struct {
 	pos    int
 	rcalls int
 	wcalls int
-	rn     [8]int // piece size of read call k
-	reof   bool   // an io.EOF was returned
-	rerr   bool   // errC16 was returned by a read
-	werr   bool   // errC16 was returned by a write
-	wzero  bool   // a write of a non-empty buffer accepted nothing (and reported no error)
+	rn     [8]int          // piece size of read call k
+	reof   bool            // an io.EOF was returned
+	rerr   bool            // errC16 was returned by a read
+	werr   bool            // errC16 was returned by a write
+	wlen   [8]int          // accepted count of write call k
+	wdat   [8][c16Cap]byte // the accepted bytes of write call k (first store bytes)
+	wzero  bool            // a write of a non-empty buffer accepted nothing (and reported no error)
 	write  bool
 	closed bool
 }
@@ -314,6 +316,14 @@ func (h *c16Handle) Write(p []byte) (int, error) {
 	// the length is tracked exactly; only the first c16Cap bytes are stored (a correct copy of a
 	// source of at most c16Cap bytes never writes beyond them)
 	pos := h.pos
+	if k < len(h.wlen) {
+		h.wlen[k] = w
+		for i := 0; i < h.fs.store; i++ {
+			if i < w {
+				h.wdat[k][i] = p[i]
+			}
+		}
+	}
 	for i := 0; i < h.fs.store; i++ {
 		if i < w {
 			if pos+i < c16Cap {
@@ -411,4 +421,27 @@ func c16SameBytes(a, b *c16Node) bool {
 		}
 	}
 	return same
+}
+
+// c16WritesMatch: every byte accepted by the write calls of h equals the byte of src at the same
+// stream position (the calls append one after the other), and together they are exactly src's
+// length. Per-call records keep the formula flat (no chains of stores at symbolic positions).
+func c16WritesMatch(h *c16Handle, src *c16Node) (bytesOK bool, total int) {
+	bytesOK = true
+	off := 0
+	for k := 0; k < len(h.wlen); k++ {
+		if k < h.wcalls {
+			for i := 0; i < h.fs.store; i++ {
+				if i < h.wlen[k] {
+					if off+i < src.size {
+						if h.wdat[k][i] != src.buf[(off+i)&(c16Cap-1)] {
+							bytesOK = false
+						}
+					}
+				}
+			}
+			off += h.wlen[k]
+		}
+	}
+	return bytesOK, off
 }
